@@ -1,9 +1,9 @@
 """C02 -- each request is decoded into exactly the operation and arguments the client sent."""
-import os, sys, random, collections
+import os, sys, random, collections, re
 from vlib import *
 import server_common as S
 sys.path.insert(0, os.path.join(ROOT, 'translator'))
-import server_dispatch, rust_abi
+import server_dispatch, rust_abi, server_handlers
 
 PROP = 'C02'
 
@@ -12,7 +12,10 @@ def run_check(tier, seed):
     ev.cov['checker_cmd'] = 'make -C coq Props/C02.vo (coqc 8.16.1, full .vo) + Print Assumptions audit'
     ev.cov['trusted_base'] = TRUSTED_COMMON + S.SERVER_TRUSTED + [
         'translator/server_dispatch.py (arms of the dispatch match, self.fs.<method> calls per handler, Arc<FS> forwarding bodies, server constants); regenerated into coq/Gen/RustDispatch.v on every run',
-        'coq/Spec/Requests.v: expected_call (the meaning of each opcode in terms of kernel field names) is the specification; encode_req lays requests out with the kernel struct tables']
+        'coq/Spec/Requests.v: expected_call (the meaning of each opcode in terms of kernel field names) is the specification; encode_req lays requests out with the kernel struct tables',
+        'translator/server_handlers.py (Rust-subset parser + symbolic execution of each handler body up to its self.fs.<method>(..) call: request reads, guards, call arguments; ctx accessors read from mod.rs); '
+        'regenerated into coq/Gen/RustHandlers.v on every run; coq/Model/ServerSrc.v gives the read steps their meaning (same Reader primitives as Model/Server.v); libc RENAME_* values, '
+        'the one-to-one From impls behind `.into()` on nested structs, and the harness argument log order are trusted (checked by the differential runs)']
     ev.assumptions = ['C02_decode_exact is proved in Coq for all 45 dispatched opcodes other than INIT (INIT is C12); the same predicate is evaluated on the implementation for every generated request']
     broken = []; findings = []
     try:
@@ -20,7 +23,28 @@ def run_check(tier, seed):
         write_if_changed(os.path.join(COQ, 'Gen/RustABI.v'), rust_abi.emit_coq(rust_abi.translate(REPO)))
     except rust_abi.TranslateError as ex:
         broken.append({'kind': 'translator', 'item': 'translator/server_dispatch.py', 'error': str(ex)})
+    # handler bodies -> Gen/RustHandlers.v (the call each handler makes as a function of the decoded request)
+    suspects = []           # handler functions whose source tie is broken: their opcodes get extra cases, generated first
+    disp = []
+    try:
+        ht = server_handlers.translate(REPO)
+        write_if_changed(os.path.join(COQ, 'Gen/RustHandlers.v'), server_handlers.emit_coq(ht))
+        disp = server_dispatch.translate(REPO)['dispatch']
+        ev.cov['src_handlers'] = {'translated': [e['fn'] for e in ht['entries']],
+                                  'untranslated': dict((u['fn'], u['why']) for u in ht['untranslated'])}
+        for fn in ht['lost']:
+            suspects.append(fn)
+            broken.append({'kind': 'translator', 'item': 'translator/server_handlers.py', 'handler': fn,
+                           'error': 'handler %s is no longer in the translated subset: %s' % (fn, ht['lost_why'].get(fn, 'not dispatched'))})
+    except (rust_abi.TranslateError, server_handlers.Unsupported) as ex:
+        broken.append({'kind': 'translator', 'item': 'translator/server_handlers.py', 'error': str(ex)})
     audit = std_audit(ev, PROP, broken)
+    for b in broken:
+        m = re.fullmatch(r'h_(\w+)_calls_src', str(b.get('theorem_or_lemma') or '')) if b.get('kind') == 'proof' else None
+        if m:
+            b['handler'] = m.group(1); suspects.append(m.group(1))
+            b['tie'] = 'Model/Server.v h_%s no longer makes the filesystem call that the body of fn %s in src/api/server/sync_io.rs makes (Gen/RustHandlers.v)' % (m.group(1), m.group(1))
+    suspect_ops = sorted(set(n for n, _op, h, _ms in disp if h in suspects))
     ok, out, bindir = cargo_build(['codec'])
     if not ok:
         broken.append({'kind': 'harness-build', 'log': out[-3000:]})
@@ -28,7 +52,13 @@ def run_check(tier, seed):
     n = 1000 if tier == 'quick' else 8000
     rng = random.Random(seed)
     # well-formed requests only (the property quantifies over field valuations), comfortable capacity
-    cases = [c for c in S.gen_cases(rng, n, frac_malformed=0.0, cap=1 << 17) if c['wf']]
+    cases = []
+    if suspect_ops:
+        # the tie of these handlers to the source is broken: look for the concrete request first, and harder
+        cases = [c for c in S.gen_cases(rng, 600 if tier == 'quick' else 4000, opcodes=suspect_ops, frac_malformed=0.0, cap=1 << 17) if c['wf']]
+        for i, c in enumerate(cases): c['id'] = 2 * 10 ** 6 + i
+        ev.cov['targeted_opcodes'] = suspect_ops; ev.cov['targeted_cases'] = len(cases)
+    cases += [c for c in S.gen_cases(rng, n, frac_malformed=0.0, cap=1 << 17) if c['wf']]
     cases += [c for c in S.gen_config_cases(rng, len(cases) + 100000) if c['wf']['op'] != 26]
     # requests near the size limits: full max_write (1 MiB) payloads and the largest request the transport buffer holds
     big = []
